@@ -157,6 +157,9 @@ def main(argv=None):
                     flush=True,
                 )
     wall = time.time() - t0
+    if violations > 0:
+        # a violation reproduced on the unpatched code is real whatever else was inconclusive or failed
+        exit_code = 1
     for ln in lines:
         print(ln)
     if not a.no_evidence and not a.only:
